@@ -1,3 +1,15 @@
+/-
+  Props/C15IeeeShift.lean — C15 last sentence ("shifting every time by the same whole number of milliseconds shifts all object
+  and control-point times by that amount and changes nothing else") FOR IEEE DOUBLES on integer times. No law hypothesis.
+
+  * `shiftLawsOn_float_int`: `ShiftLawsOn (integer doubles below 2^51) (Float.ofInt k)` for `|k| < 2^51` (Lemmas/FloatIntExact.lean).
+  * state level: `shift_invariant_float_int_finish` (no sliders, full equality), `shift_invariant_float_int_finish_erased`
+    (sliders allowed, slider samples not compared), `objIn_of_small` (sufficient condition for the derived-time hypothesis).
+  * line level: `shift_invariant_float_int`, `shift_invariant_float_int_erased`, `beatmap_shift_invariant_float_int`; worked
+    instance on text lines parsed by the model's decimal parser (`sfBody_shift`).
+  * FINDING `slider_samples_shift_false` (witness `sxState`, both sides evaluated by the kernel): with a slider the un-erased
+    statement is false of doubles even though every stored time is an integer below 2000 and the shift is −1000.
+-/
 import RosuModel.Props.C15ShiftOn
 import RosuModel.Props.C15ShiftLinesOn
 import RosuModel.Lemmas.FloatIntExact
